@@ -26,6 +26,7 @@ func init() {
 			"(R4, relayed lines) the Writer callback either logs the line through Logger.log (not a logger line), warns with a constant (bad level), drops it (level gate), or writes NeutralizeControlCharacters of line+\"\\n\" / Sprintf(\"%s[%s] %s\\n\", prefix, scope, rest) whose format has exactly one trailing newline and whose operands all derive from the line (which the line processor delivers without a newline — C47) or the scope; " +
 			"(R5, neutralizer table) the replacer maps at least ESC and CR, no replacement contains a control character, and NeutralizeControlCharacters returns the replacer's result for its argument. " +
 			"(R6) every callback invocation of stream.LineProcessor.Write passes the text before the FIRST newline of the remaining data (found by IndexByte, ≠ -1), so a relayed line cannot carry an embedded newline; " +
+			"(R7, own scope) Sublogger returns, on every successful path, a freshly built Logger whose scope is the parent's scope + '.' + the validated name (the bare name under an unscoped parent) with the parent's level and writer — never a logger obtained elsewhere, so each line carries the scope of the logger it was written on; " +
 			"Not decided: behaviour of fmt and strings.Replacer; C1 controls other than ESC.",
 		Assumptions: []string{"strings.Replacer replaces every occurrence", "the line processor delivers lines without '\\n' (C47)"},
 		Run:         runC44,
@@ -43,6 +44,7 @@ func isControlFree(s string) bool {
 
 func runC44(c *eng.Ctx) {
 	c44LinesHaveNoNewline(c)
+	c44Scope(c)
 	wfield, err := c.P.Field(loggingPkg, "Logger", "writer")
 	if err != nil {
 		c.Problem("R1", "%v", err)
